@@ -120,6 +120,8 @@ FRAG = ["(", ")", "{", "}", "[", "]", ";", ",", "x", "0", "if", "else", "while",
 
 def edits(src, spans, rnd, k):
     out = []
+    if spans is None:        # the text could not be tokenised by the implementation (reported elsewhere): nothing to edit
+        return []
     real = [s for s in spans]
     for _ in range(k):
         if not real:
